@@ -115,8 +115,20 @@ def check_rows(run, rows, where):
     run.cov[f"open_texts_{where}"] = n_open
 
 
-def random_numbers(rng, n):
+def compound_numbers():
+    """every real part x sign x imaginary part, with exponents (signed or not) and the special spellings"""
+    reals = ["1", "1.5", "1e5", "1e-5", "1e+5", "1E-5", "-1e-5", "+1e+5", ".5e-1", "1_0e+1_0", "NaN", "Inf", "-Inf", "nan", "1e"]
+    imags = ["2j", "2J", "NaNj", "Infj", "nanj", "infj", "INFj", "Infinityj", "1e-3j", "1e+3J", "NaNJ", ".5j", "1e-j", "NaN"]
     out = []
+    for r_ in reals:
+        for sg in "+-":
+            for i_ in imags:
+                out.append(r_ + sg + i_)
+    return out + [x + "j" for x in reals] + reals
+
+
+def random_numbers(rng, n):
+    out = compound_numbers()
     digs = lambda k, alpha="0123456789": "".join(rng.choice(alpha) for _ in range(rng.randint(1, k)))
     for _ in range(n):
         kind = rng.random()
@@ -167,6 +179,24 @@ def main_c22(run):
         raise MachineryError(f"HyReaderIdent: law {r.violated} fails on the specification (generated literals)")
     run.add_tlc(r, f"HyReaderIdent: {len(texts)} generated literals / near misses")
     check_rows(run, r.ex("ROW"), "generated")
+    # Where the documentation leaves a compound a+bj with a NaN / Inf word open (CPython's constructor ignores
+    # case, Hy's words are case-sensitive), one thing is still decided: the case rule is about the word, so the
+    # class of the compound cannot depend on how an ordinary real part is spelled (exponent, its sign, separators)
+    plain_reals = ["1", "1.5", "1e5", "1e-5", "1e+5", "1E-5", "1_0e+1_0", ".5e-1", "15e-1_0"]
+    words = ["NaNj", "Infj", "nanj", "infj", "INFj", "Infinityj", "NaNJ", "InfJ", "2j", "nAnj"]
+    nmeta = 0
+    for sg in "+-":
+        for w_ in words:
+            classes = {r_: real_class(r_ + sg + w_)[0] for r_ in plain_reals}
+            nmeta += 1
+            run.case(("compound", sg + w_))
+            # (what a non-number then is -- a symbol, a dotted form, an error -- does depend on the dots in it)
+            if len({c == "complex" for c in classes.values()}) > 1:
+                run.violation("compound:" + sg + w_, f"whether <real part>{sg}{w_} is a complex number depends on the spelling of the real part: {classes}",
+                              {"text": sg + w_, "classes": classes})
+            else:
+                run.cov["traces_validated_against_impl"] += 1
+    run.cov["compound_word_groups"] = nmeta
     ex = [row for row in rows if row["c"] in ("float", "complex")][:2]
     for row in ex:
         run.sample({"text": "".join(row["s"]), "class": row["c"], "canonical": "".join(row["canon"])})
@@ -176,7 +206,8 @@ def main_c22(run):
                       "letters, NaN/Inf letters) classified by TLC (MUST int/float/complex with canonical text, MUST "
                       "symbol/dotted/lex, or open when only CPython's constructors would accept it) and read by the real "
                       "reader: type and value vs CPython's evaluation; every Python literal among them must be numeric; plus "
-                      "generated long literals with separators and near misses" % L,
+                      "generated long literals with separators and near misses, and compounds a+bj of every real-part spelling with "
+                      "every NaN / Inf word spelling (class independent of the real part's spelling)" % L,
                       assumptions=["CPython's int/float/complex and its tokenizer are the reference for values and for "
                                    "what a Python literal is"], extra={"exhaustive": True})
 
@@ -468,9 +499,21 @@ def main_c26(run):
 
 
 # ---------------------------------------------------------------- C24
-FVARS = {"x": 5, "y": "ab", "z": 3.14159, "w": 8, "n": None, "lst": [1, 2], "neg": -7}
+class Formatted:
+    """format(), str(), repr() and ascii() of this object all differ: which of them a field uses is visible"""
+    def __format__(self, spec):
+        return "F[" + spec + "]"
+
+    def __str__(self):
+        return "Sé"
+
+    def __repr__(self):
+        return "Ré"
+
+
+FVARS = {"x": 5, "y": "ab", "z": 3.14159, "w": 8, "n": None, "lst": [1, 2], "neg": -7, "obj": Formatted()}
 # (hy source, python source) of field expressions
-FEXPR = [("x", "x"), ("y", "y"), ("z", "z"), ("n", "n"), ("lst", "lst"), ("neg", "neg"), ("(+ x 1)", "(x + 1)"),
+FEXPR = [("x", "x"), ("y", "y"), ("z", "z"), ("n", "n"), ("lst", "lst"), ("neg", "neg"), ("obj", "obj"), ("(+ x 1)", "(x + 1)"),
          ("(get lst 0)", "lst[0]"), ('"q"', '"q"'), ("(.upper y)", "y.upper()"), ("[x y]", "[x, y]")]
 FLIT = [("a", "a"), (" ", " "), ("{{", "{{"), ("}}", "}}"), ("\\N{BULLET}", "\\N{BULLET}"), ("\\N{NO SUCH NAME}", "\\N{NO SUCH NAME}"), ("\\n", "\\n"), ("é", "é"),
         ("\\x41", "\\x41"), (":", ":"), ("!", "!"), ("=", "="), ("\\\\", "\\\\")]
@@ -549,7 +592,7 @@ def main_c24(run):
     cases = []
     # every combination of expression kind x "=" debugging x conversion x format spec, one field each
     # (the last four are spelled the same in both languages, so their = debugging text can be compared too)
-    for he, pe in (("x", "x"), ("y", "y"), ("lst", "lst"), ("(+ x 1)", "(x + 1)"), ('f"<{x}>"', 'f"<{x}>"'),
+    for he, pe in (("x", "x"), ("y", "y"), ("lst", "lst"), ("obj", "obj"), ("(+ x 1)", "(x + 1)"), ('f"<{x}>"', 'f"<{x}>"'),
                    ('f"{x}{y !r}"', 'f"{x}{y !r}"'), ("x.real", "x.real"), ("[x]", "[x]")):
         for dbg in (False, True):
             if dbg and he != pe:
